@@ -13,4 +13,4 @@ CONSTANTS
 INVARIANTS
   OneHolderPerAddress KeyedByAddress OneLeasePerClient DynamicInsidePool
   ReservedClientGetsReservation OfferWhenFree DiskEqualsMemoryEachOnce
-  RestartRestoresSameTable HostsUnique RemBounded NoReuseBeforeAnnouncedExpiry BoundedStatics
+  RestartRestoresSameTable HostsUnique RemBounded NoReuseBeforeAnnouncedExpiry RemoveKeepsHeldDynamic BoundedStatics
